@@ -176,9 +176,9 @@ def translate(repo):
     media = []
     for v, var in (("H264", "H264"), ("H265", "H265"), ("VP9", "VP9"), ("AAC", "AAC"), ("TTXT", "TTXT")):
         m1 = re.search(r'const MEDIA_TYPE_%s\s*:\s*&str\s*=\s*"(\w+)"\s*;' % v, types_rs)
-        if m1 and re.search(r"MEDIA_TYPE_%s\s*=>\s*Ok\(MediaType::%s\)" % (v, var), types_rs) and len(
-            re.findall(r"MediaType::%s\s*=>\s*MEDIA_TYPE_%s\b" % (var, v), types_rs)
-        ) >= 2:
+        # the variant is mapped to its constant in at least one impl (a second impl may delegate to the first), and no arm anywhere maps it to another constant
+        arms = re.findall(r"MediaType::%s\s*=>\s*MEDIA_TYPE_(\w+)\b" % var, types_rs)
+        if m1 and re.search(r"MEDIA_TYPE_%s\s*=>\s*Ok\(MediaType::%s\)" % (v, var), types_rs) and arms and all(a == v for a in arms):
             media.append([var, m1.group(1)])
         else:
             bad.append("MEDIA_TYPE_" + v)
